@@ -162,7 +162,7 @@ _p("C05", modules=["framing", "framing_unbounded", "framing_history", "main_run"
    assumptions=UNBOUNDED_FRAMING_ASSUMPTIONS, trusted_base=["list.sort (stable, total order by key)"], bounded=BOUNDED_FRAMING, not_under_contract=[])
 
 
-_p("C09", modules=["keylog", "keylog_unbounded", "main_run", "demux", "container"], level="other",
+_p("C09", modules=["keylog", "keylog_unbounded", "main_run", "demux", "container", "container_unbounded"], level="other",
    technique="contract-based deductive verification: regular-language inclusion (z3 re theory) for the key-log pattern, VCs for the parsers and run()'s DSB/-s branches",
    level_text="Proved: every line of the NSS key-log grammar (nine labels, upper- or lower-case hex) is accepted by the REAL pattern and yields exactly its three fields "
               "(language inclusion oracle <= pattern, decided by z3); any other line is rejected or parsed without exception; get_keys_from_string returns the keys of "
@@ -290,8 +290,9 @@ _p("C13", modules=["metadata", "quic_output", "tcp_output", "robustness", "recor
               "records verbatim); -a never turns a quiet record into an exception; OutputBuilder.build hands every record to the builder of its direction with its own plaintext, "
               "in list order, whatever else is in the list; QUICOutputbuilder.build keeps every STREAM frame's data, in order and direction, for both values of the flag "
               "(the kept-data clause of its transition relation); the TLS 1.3 inner-plaintext handler exports exactly the content for type 23.",
-   level_note="level 'other': the ClientHello/ServerHello branch (hello parsing + key generation) is excluded from the product harness by precondition - it does not read exp_meta "
-              "(syntactic), but that is argued, not proved; 'same payloads in the same order' for whole runs is the composition of these per-call contracts",
+   level_note="level 'other': the ClientHello/ServerHello branch (hello parsing + key generation) is excluded from the product harness by precondition; that it cannot depend on -a is a "
+              "discharged frame obligation (metadata.flag_is_read_only_where_it_may_add_packets: the flag is written by the constructor only and read only in the functions under the "
+              "product contract; builder, decryptor and records never see it); 'same payloads in the same order' for whole runs is the composition of these per-call contracts",
    design_ref="DESIGN.md 4 C13", explanation="Per-record and per-builder obligations discharged for both values of the flag; the whole-run subsequence statement is their composition (paper).",
    assumptions=[], trusted_base=[], not_under_contract=["handle_tls_client_hello / handle_tls_server_hello under the product harness"])
 
@@ -309,9 +310,13 @@ _p("C08", modules=["prefix", "framing", "framing_unbounded", "framing_history", 
    assumptions=UNBOUNDED_FRAMING_ASSUMPTIONS, trusted_base=[], bounded=BOUNDED_FRAMING, not_under_contract=[])
 
 
-_p("C12", modules=["container", "main_run"], level="other",
-   technique="contracts on the real Reader checked exhaustively within a stated bound over a byte-level file model; dpkt block classes as assumed records",
-   level_text="BOUNDED (one section, one interface, <= 2 blocks before and <= 3 after the interface description; block sizes, contents, field values, option values symbolic; "
+_p("C12", modules=["container", "container_unbounded", "main_run"], level="other",
+   technique="contract-based deductive verification: unbounded loop contract for Reader.__iter__ over a ghost block list; Reader.__init__ (section header, interface options) checked "
+             "exhaustively within a stated bound over a byte-level file model; dpkt block classes as assumed records",
+   level_text="UNBOUNDED (container.unbounded.iter: a file of ANY number of blocks, both byte orders): per block, Reader.__iter__ stands at the block's offset, yields exactly one "
+              "(if_tsoffset + ((ts_high << 32) | ts_low) / divisor, packet data) for an Enhanced Packet or obsolete Packet block, exactly one (-1, secrets) for a decryption-secrets block "
+              "wherever it sits, nothing for any other block, then stands at the next block; iteration ends only at the end of the file. "
+              "BOUNDED (one section, one interface, <= 2 blocks before and <= 3 after the interface description; block sizes, contents, field values, option values symbolic; "
               "both byte orders): tlexport.dpkt_dsb.Reader.__init__ and __iter__ executed from their real ASTs over a byte-level file yield, in file order, one item per packet "
               "block (EPB and obsolete PB) with timestamp if_tsoffset + ((ts_high << 32) | ts_low) / divisor - divisor 10^v, or 2^(v & 0x7f) when the MSB of if_tsresol is set, "
               "default 10^6 - and the block's packet data, one (-1, secrets) per decryption-secrets block WHEREVER it sits (also before the interface description), and nothing for "
